@@ -427,6 +427,18 @@ def g_or(gs):
     return ("or", tuple(out))
 
 
+def abstract_len(v):
+    """Length term of an abstract list built over symbolic domains."""
+    if any(_maybe_absent(x) for x in v.items):
+        tot = Poly.const(0)
+        for x in v.items:
+            tot = tot + _presence(x)
+        return tot
+    if len(v.doms) == 1 and len(v.items) == K_ELEMS:
+        return Poly.atom(("call", "len", (v.doms[0],), ()))
+    return Poly.atom(("call", "len", (vkey(v),), ()))
+
+
 def truth_of(v):
     """Guard for the truthiness of an abstract value."""
     if isinstance(v, tuple):
@@ -439,6 +451,9 @@ def truth_of(v):
         return TRUE if v else FALSE
     if isinstance(v, (AList, ATuple)) and not getattr(v, "doms", None):
         return TRUE if v.items else FALSE
+    if isinstance(v, AList):
+        # a list is true iff it is not empty: the same length term `len()` gives (`not xs` is `len(xs) == 0`)
+        return g_not(g_cmp("==", abstract_len(v), Poly.const(0)))
     if isinstance(v, Poly):
         if v.is_const():
             return TRUE if v.const_value() != 0 else FALSE
@@ -898,6 +913,17 @@ class Frame:
                 if len(r) <= 16:
                     return [Poly.const(x) for x in r]
             return [Poly.atom(("elem", a, i)) for i in range(K_ELEMS)]
+        if a is not None and a[0] == "call" and a[1] == "concat" and len(a[2]) == 2:
+            # an opaque sequence grown by append / extend: its elements, then the appended ones
+            def part(k):
+                if isinstance(k, tuple) and k and k[0] == "list":
+                    return [poly_from_key(x) if _is_polykey(x) else (Poly.atom(x) if isinstance(x, tuple) and x and isinstance(x[0], str) and x[0] not in ("list", "tuple") else None) for x in k[1]]
+                if _is_polykey(k):
+                    return self.domain_elements(poly_from_key(k), node)
+                return [None]
+            els = part(a[2][0]) + part(a[2][1])
+            if all(e is not None for e in els) and len(els) <= 16:
+                return els
         if a is not None and a[0] == "call" and a[1] == "zip":
             return [ATuple([Poly.atom(("elem", x, i)) for x in a[2]]) for i in range(K_ELEMS)]
         if a is not None and a[0] == "call" and a[1] == "enumerate" and len(a[2]) == 1:
@@ -985,7 +1011,77 @@ class Frame:
             return st.env[e.id]
         if e.id in ("True", "False", "None"):
             return {"True": True, "False": False, "None": None}[e.id]
+        c = self.module_constant(self.module, e.id)
+        if c is not None:
+            return c
         return Poly.atom(("g", self.global_name(e.id)))
+
+    def module_constant(self, module, name, depth=0):
+        """Value of a module-level name bound exactly once, at top level, to a constant expression
+        (`_FLOOR = 1e-100`, `_LOG_ONE = np.log(1)`): moving a literal to a named constant changes nothing."""
+        cache = self.I.__dict__.setdefault("_modconst", {})
+        key = (module.name if hasattr(module, "name") else id(module), name)
+        if key in cache:
+            return cache[key]
+        cache[key] = None
+        tgt = module.imports.get(name)
+        if tgt and "." in tgt and depth < 3:
+            mod_name, attr = tgt.rsplit(".", 1)
+            other = self.I.prog.modules.get(mod_name) if hasattr(self.I.prog, "modules") else None
+            if other is not None:
+                cache[key] = self.module_constant(other, attr, depth + 1)
+            return cache[key]
+        binds = []
+        for n in ast.walk(module.tree):
+            if isinstance(n, (ast.Assign, ast.AnnAssign, ast.AugAssign)):
+                ts = n.targets if isinstance(n, ast.Assign) else [n.target]
+                for t in ts:
+                    for x in ast.walk(t):
+                        if isinstance(x, ast.Name) and x.id == name and isinstance(x.ctx, ast.Store):
+                            binds.append(n)
+            elif isinstance(n, (ast.Global, ast.Nonlocal)) and name in n.names:
+                return None
+            elif isinstance(n, (ast.FunctionDef, ast.ClassDef, ast.Import, ast.ImportFrom)) and getattr(n, "name", None) == name:
+                return None
+        top = [n for n in module.tree.body if n in binds]
+        if len(binds) != 1 or len(top) != 1 or not isinstance(top[0], (ast.Assign, ast.AnnAssign)) or top[0].value is None:
+            return None
+        tnode = top[0].targets[0] if isinstance(top[0], ast.Assign) else top[0].target
+        if not isinstance(tnode, ast.Name):
+            return None
+        if any(isinstance(x, (ast.Call,)) and not (_dotted(x.func) or "").split(".")[-1] in ("log", "exp", "log1p", "sqrt", "float", "int") for x in ast.walk(top[0].value)):
+            return None
+        if any(isinstance(x, ast.Name) and x.id not in ("np", "numpy", "math") and self.module_constant(module, x.id, depth + 1) is None for x in ast.walk(top[0].value) if not isinstance(x, ast.Attribute)):
+            return None
+        saved = self.module
+        try:
+            self.module = module
+            v = self.eval(top[0].value, State({}))
+        except (Unsupported, AnalysisError):
+            v = None
+        finally:
+            self.module = saved
+
+        if isinstance(v, (int, float, Fraction)) and not isinstance(v, bool):
+            v = Poly.const(v)
+
+        def const(x):
+            if isinstance(x, Poly):
+                if x.is_const():
+                    return True
+                try:  # a closed term (log(1), exp(-2), inf ...): the same image under unrelated valuations
+                    a, b = Valuation(0, salt="mc0").image(x.key()), Valuation(7, salt="mc1").image(x.key())
+                    return a == b or (a != a and b != b)
+                except (ValueError, OverflowError, ZeroDivisionError, Unsupported):
+                    return False
+            if isinstance(x, (str, bool)) or x is None:
+                return True
+            if isinstance(x, (ATuple, AList)):
+                return not getattr(x, "doms", None) and all(const(i) for i in x.items)
+            return False
+
+        cache[key] = v if (v is not None and const(v)) else None
+        return cache[key]
 
     def global_name(self, name):
         tgt = self.module.imports.get(name)
@@ -1184,6 +1280,18 @@ class Frame:
             if isinstance(base, (AList, ATuple)) and not getattr(base, "doms", None):
                 return type(base)(list(reversed(base.items)))
             return Poly.atom(("call", "reversed", (vkey(base),), ()))
+        if isinstance(e.slice, ast.Slice) and isinstance(base, (AList, ATuple)) and not getattr(base, "doms", None):
+            # a constant slice of a concrete sequence is a concrete sequence
+            def bound(x):
+                if x is None:
+                    return True, None
+                v = self.eval(x, st)
+                if isinstance(v, Poly) and v.is_const() and v.const_value().denominator == 1:
+                    return True, int(v.const_value())
+                return False, None
+            parts = [bound(e.slice.lower), bound(e.slice.upper), bound(e.slice.step)]
+            if all(ok for ok, _ in parts) and parts[2][1] != 0:
+                return type(base)(list(base.items[slice(parts[0][1], parts[1][1], parts[2][1])]))
         slot = ("@sub", vkey(base), vkey(idx))
         if slot in st.env:
             return st.env[slot]
@@ -1478,6 +1586,13 @@ class Frame:
                     recv.items.extend(args[0].items)
                     recv.doms.extend(getattr(args[0], "doms", []))
                 else:
+                    ra = args[0].as_atom() if isinstance(args[0], Poly) else None
+                    if ra is not None and ra[0] == "call" and ra[1] in ("itertools.repeat", "repeat") and len(ra[2]) == 2 and not ra[3]:
+                        # extend(repeat(x, n)) is `for _ in range(n): append(x)`: same pseudo-elements, same domain
+                        x = poly_from_key(ra[2][0]) if _is_polykey(ra[2][0]) else Poly.atom(ra[2][0])
+                        recv.items.extend([x] * K_ELEMS)
+                        recv.doms.append(Poly.atom(("call", "range", (ra[2][1],), ())).key())
+                        return None
                     recv.doms.append(vkey(args[0]))
                     recv.items.append(Poly.atom(("star", vkey(args[0]))))
                 return None
@@ -1524,13 +1639,49 @@ class Frame:
         return self.opaque_mcall(name, recv, args, kwargs, st, node)
 
     def opaque_call(self, name, args, kwargs, st, node):
+        if name.startswith("new:") and kwargs:
+            # constructor: the parameters are those of the class's __init__
+            try:
+                ci = self.I.prog.cls(name[4:])
+                init = self.I.prog.method(ci, "__init__") if ci is not None else None
+            except AnalysisError:
+                init = None
+            if init is not None:
+                ps = list(init.params)[1:]
+                args, kwargs = list(args), dict(kwargs)
+                while kwargs and len(args) < len(ps) and ps[len(args)] in kwargs:
+                    args.append(kwargs.pop(ps[len(args)]))
+        elif not name.startswith("new:"):
+            args, kwargs = self._positionalise(name.split(".")[-1], args, kwargs, False)
         self.I.events.append(Event(name, args, kwargs, st.guards, node))
         if name in self.I.commutative and len(args) >= 2:
             a0, a1 = sorted(args[:2], key=lambda x: _k(vkey(x)))
             args = [a0, a1] + list(args[2:])
         return Poly.atom(("call", name, tuple(vkey(a) for a in args), tuple(sorted(((k, vkey(v)) for k, v in kwargs.items()), key=_k))))
 
+    def _positionalise(self, name, args, kwargs, method):
+        """`f(a, k=b)` and `f(a, b)` are one call when every repository function of that name takes `k` as its next
+        positional parameter (keyword instead of positional argument is a refactoring, not a change)."""
+        if not kwargs:
+            return args, kwargs
+        cands = [fi for fi in self.I.prog.functions.values() if fi.name == name and (fi.cls is not None) == method and all(k in fi.params for k in kwargs)]
+        if not cands:
+            return args, kwargs
+        args, kwargs = list(args), dict(kwargs)
+        while kwargs:
+            nxt = set()
+            for fi in cands:
+                ps = list(fi.params)
+                if method and "staticmethod" not in fi.decorators:
+                    ps = ps[1:]
+                nxt.add(ps[len(args)] if len(args) < len(ps) else None)
+            if len(nxt) != 1 or None in nxt or next(iter(nxt)) not in kwargs:
+                break
+            args.append(kwargs.pop(next(iter(nxt))))
+        return args, kwargs
+
     def opaque_mcall(self, name, recv, args, kwargs, st, node):
+        args, kwargs = self._positionalise(name, args, kwargs, True)
         self.I.events.append(Event("." + name, args, kwargs, st.guards, node, recv=recv))
         if name == "sum" and not args and not kwargs:
             return Poly.atom(("call", "sum", (vkey(recv),), ()))  # x.sum() is sum(x)
@@ -1597,6 +1748,51 @@ def _interp_run_with_env(interp, fi, args, kwargs, self_cls, carried):
         # top-level function: keep the raw paths (guard list, returned value) for path-wise rules
         interp.paths = [(list(st.guards), oc[1] if oc[0] == "return" else (None if oc[0] == "fall" else Poly.atom(("raise", oc[1])))) for st, oc in outs]
     return result, merged
+
+
+def rewrite(v, fn):
+    """Bottom-up rewriting of every atom inside an abstract value: `fn(atom)` returns an atom, a Poly or None
+    (unchanged).  Used for vocabulary normalisations that a sibling rule justifies (e.g. a forwarding wrapper)."""
+    def rk(k):
+        if _is_polykey(k):
+            return rewrite(poly_from_key(k), fn).key()
+        if isinstance(k, tuple) and k and isinstance(k[0], str):
+            a = tuple(rk(x) if isinstance(x, tuple) else x for x in k)
+            r = fn(a)
+            if r is None:
+                return a
+            return r.key() if isinstance(r, Poly) else r
+        if isinstance(k, tuple):
+            return tuple(rk(x) if isinstance(x, tuple) else x for x in k)
+        return k
+
+    if isinstance(v, Poly):
+        out = Poly.const(0)
+        for m, c in v.terms.items():
+            term = Poly.const(c)
+            for a, pw in m:
+                a2 = tuple(rk(x) if isinstance(x, tuple) else x for x in a)
+                r = fn(a2)
+                base = Poly.atom(a2) if r is None else (r if isinstance(r, Poly) else Poly.atom(r))
+                term = term * (base ** Poly.const(pw))
+            out = out + term
+        return out
+    if isinstance(v, ATuple):
+        return ATuple([rewrite(x, fn) for x in v.items])
+    if isinstance(v, AList):
+        return type(v)([rewrite(x, fn) for x in v.items], v.doms)
+    if isinstance(v, tuple):
+        return rk(v)
+    return v
+
+
+def rewrite_events(evs, fn):
+    out = []
+    for e in evs:
+        n = Event(e.name, [rewrite(a, fn) for a in e.args], {k: rewrite(x, fn) for k, x in e.kwargs.items()}, [rewrite(g, fn) for g in e.guards], e.node, recv=rewrite(e.recv, fn) if e.recv is not None else None)
+        n.full_guards = [rewrite(g, fn) for g in e.full_guards]
+        out.append(n)
+    return out
 
 
 def subst_key(k, mapping):
@@ -1747,6 +1943,12 @@ class Valuation:
             return all(self.truth(x) for x in g[1])
         if t == "or":
             return any(self.truth(x) for x in g[1])
+        if t == "truth" and isinstance(g[1], tuple) and not (_is_polykey(g[1]) and False):
+            # `if xs:` on a sized value is `len(xs) != 0`: one test, two spellings
+            la = g[1]
+            ka = key_atom(la) if (_is_polykey(la) or (isinstance(la, tuple) and la and isinstance(la[0], str))) else None
+            if ka is not None and ka[0] in ("v", "attr", "sub", "mcall", "call", "elem", "elemv", "upd") and not (ka[0] == "call" and ka[1] in ("isinstance", "hasattr", "callable", "bool", "any", "all")):
+                return not self.truth(g_cmp("==", Poly.atom(("call", "len", (Poly.atom(ka).key(),), ())), Poly.const(0)))
         if self.base is not None:
             return self.base.truth(g)
         if g in self.tcache:
@@ -1766,6 +1968,9 @@ class Valuation:
         they are written, give equal values)."""
         if isinstance(k, tuple):
             if _is_polykey(k):
+                ka = key_atom(k)
+                if ka is not None and ka[0] == "call" and ka[1] in ("set", "frozenset") and not ka[3]:
+                    return self.image(ka)  # a set wrapped as a term: its structural image (order / spelling free)
                 return _round(self.poly(k))
             if k and isinstance(k[0], str):
                 if k[0] in ("const", "g", "fstr", "lambda", "localdef", "super", "absent", "raise", "undef"):
@@ -1775,7 +1980,10 @@ class Valuation:
                 if k[0] == "list":
                     return ("list", tuple(self.image(x) for x in k[1] if not self.is_absent_key(x)))
                 if k[0] == "call" and k[1] in ("set", "frozenset") and not k[3]:
-                    return (k[1], tuple(sorted({repr(self.image(x)) for x in k[2] if not self.is_absent_key(x)})))
+                    elems = k[2]
+                    if len(elems) == 1 and isinstance(elems[0], tuple) and elems[0] and elems[0][0] in ("list", "tuple") and isinstance(elems[0][1] if len(elems[0]) > 1 else None, tuple) and elems[0][0] == "list":
+                        elems = elems[0][1]  # set([a, b]) / {x for ...} is the set of the elements
+                    return (k[1], tuple(sorted({repr(self.image(x)) for x in elems if not self.is_absent_key(x)})))
                 if k[0] in ("tuple", "dict", "slice", "val"):
                     return (k[0],) + tuple(self.image(x) for x in k[1:])
                 return _round(self.atom(k))
@@ -1840,6 +2048,18 @@ class Valuation:
                 return float("-inf")
         if a in self.cache:
             return self.cache[a]
+        # one mapping, two ways to walk it: `for k in d: d[k]` and `for k, v in d.items()` name the same key and value
+        if t == "elemk" and len(a) == 3:
+            a2 = ("elem", a[1], a[2])
+            r = self.atom(a2)
+            self.cache[a] = r
+            return r
+        if t == "sub" and len(a) == 3:
+            ia = key_atom(a[2]) if isinstance(a[2], tuple) else None
+            if ia is not None and ia[0] in ("elem", "elemk") and len(ia) == 3 and ia[1] == a[1]:
+                r = self.atom(("elemv", a[1], ia[2]))
+                self.cache[a] = r
+                return r
         r = self.rand(tuple(x if isinstance(x, (str, int)) else self.image(x) for x in a))
         self.cache[a] = r
         return r
